@@ -658,7 +658,7 @@ func TestC18(t *testing.T) {
 				return
 			}
 		}
-		for _, fname := range []string{"pck-crl-endpoint-down", "root-crl-endpoint-down", "tcbinfo-endpoint-down", "leaf-revoked", "tcb-level-out-of-date", "module-out-of-date-with-lenient-identity-listed-last", "qe-level-revoked", "tcbinfo-signature-corrupt"} {
+		for _, fname := range []string{"pck-crl-endpoint-down", "root-crl-endpoint-down", "tcbinfo-endpoint-down", "leaf-revoked", "tcb-level-out-of-date", "module-out-of-date-with-lenient-identity-listed-last", "qe-level-revoked", "tcbinfo-signature-corrupt", "qe-identity-signed-under-a-look-alike-of-the-trusted-root", "quote-carries-an-expired-edition-of-the-trusted-root"} {
 			for _, forged := range []bool{false, true} {
 				w2 := mkWorld(gen.Seed() + 10)
 				var f gen.Fault
@@ -675,10 +675,15 @@ func TestC18(t *testing.T) {
 					raw = append([]byte{}, raw...)
 					raw[48+300] ^= 0x40 // a body bit, not re-signed
 				}
-				st, v := parse(w2, raw, nonce, nil, func(o *verify.Options) { *o = *w2.Options(gen.LvlCRL, w2.NewGetter(), nil) })
-				gen.NonTrivial("gate1-collateral", fname, forged)
-				if !expectBlocked(t, "verification-fault:"+fname, fmt.Sprintf("%s with revocation checking on, body forged=%v", fname, forged), st, v) {
-					return
+				for _, lvl := range []gen.Level{gen.LvlCRL, gen.LvlColl} {
+					if !f.RejectedAt(lvl) {
+						continue // the fault lives in data this level does not look at
+					}
+					st, v := parse(w2, raw, nonce, nil, func(o *verify.Options) { *o = *w2.Options(lvl, w2.NewGetter(), nil) })
+					gen.NonTrivial("gate1-collateral", fname, forged, int(lvl))
+					if !expectBlocked(t, "verification-fault:"+fname, fmt.Sprintf("%s at level %s, body forged=%v", fname, lvl, forged), st, v) {
+						return
+					}
 				}
 			}
 		}
